@@ -89,7 +89,9 @@ class Run:
         self.tier = tier
         self.seed = seed
         self.t0 = time.time()
-        self.dir = os.path.join(BUILD, prop)
+        # VERIF_BUILD_TAG isolates concurrent runs of the same check (own build dir, own evidence file)
+        self.tag = os.environ.get("VERIF_BUILD_TAG", "")
+        self.dir = os.path.join(BUILD, prop + (f"-{self.tag}" if self.tag else ""))
         os.makedirs(self.dir, exist_ok=True)
         os.makedirs(os.path.join(BUILD, "replay"), exist_ok=True)
         self.obligations = []      # (name, discharged:bool, kind)
@@ -271,7 +273,7 @@ class Run:
               "coverage": cov, "assumptions": self.assumptions, "wall_s": round(time.time() - self.t0, 2),
               "violations": violations}
         os.makedirs(os.path.join(VERIF, "evidence"), exist_ok=True)
-        evname = f"{self.prop}.replay.json" if self.replay_mode else f"{self.prop}.json"
+        evname = f"{self.prop}.replay.json" if self.replay_mode else (f"{self.prop}.{self.tag}.json" if self.tag else f"{self.prop}.json")
         with open(os.path.join(VERIF, "evidence", evname), "w") as fh:
             json.dump(ev, fh, indent=1, default=str)
         for l in lines:
